@@ -494,7 +494,9 @@ class Extractor:
             # mutating calls on an alias of one of self's derivatives
             if isinstance(fn, ast.Attribute) and self.is_deriv_expr(fn.value, s, aliases):
                 if ('Qube.' + fn.attr) in self.eventful and fn.attr != 'require_writable':
-                    out.append(('ev', ('write', 'derivs', 'store'), sid))
+                    # freezing a derivative changes no content (the 'unshrunk' original still corresponds)
+                    mode = 'same' if fn.attr in ('as_readonly', 'match_readonly') else 'store'
+                    out.append(('ev', ('write', 'derivs', mode), sid))
                 return False
             q, args = self.call_target(f, n)
             if q is not None:
